@@ -11,9 +11,10 @@ import (
 )
 
 type varInfo struct {
-	obj  types.Object
-	name string
-	ty   gtype
+	obj   types.Object
+	name  string
+	ty    gtype
+	place *placeInfo // [seq] ty.k == kPlace
 }
 
 // env: the variables in scope (declaration order) and the slice variables that may share their backing array with
@@ -62,11 +63,12 @@ func (e *env) unshare(key string) *env {
 
 // fctx: per-function translation state.
 type fctx struct {
-	t      *Translator
-	fi     *funcInfo
-	used   map[string]bool
-	ntemp  int
-	nilErr map[*ast.Ident]bool // [ext:T20] occurrences of nil that stand for the nil error
+	t         *Translator
+	fi        *funcInfo
+	used      map[string]bool
+	ntemp     int
+	tailParam string              // [seq] the parameter standing for a timed tail
+	nilErr    map[*ast.Ident]bool // [ext:T20] occurrences of nil that stand for the nil error
 }
 
 func (c *fctx) fresh(prefix string) string {
@@ -85,7 +87,7 @@ func (c *fctx) declare(e *env, o types.Object, ty gtype) (*env, string) {
 		name = fmt.Sprintf("%s_%d", base, i)
 	}
 	c.used[name] = true
-	return e.with(varInfo{o, name, ty}), name
+	return e.with(varInfo{obj: o, name: name, ty: ty}), name
 }
 
 // ---- aliasing keys ------------------------------------------------------------------------------
@@ -300,7 +302,7 @@ func (c *fctx) expr(e ast.Expr, en *env, k func(string) string) string {
 			o = t.info.Defs[x]
 		}
 		if v := en.lookup(o); v != nil {
-			if v.ty.k == kStruct && v.ty.ptr {
+			if (v.ty.k == kStruct && v.ty.ptr) || v.ty.k == kPlace {
 				t.fail(x, "pointer %s used as a value", x.Name)
 			}
 			return k(v.name)
@@ -314,9 +316,12 @@ func (c *fctx) expr(e ast.Expr, en *env, k func(string) string) string {
 		if sel == nil || sel.Kind() != types.FieldVal {
 			t.fail(x, "selector %s", x.Sel.Name)
 		}
+		if s, ok := c.seqSelector(x, en, k); ok { // [seq] h.f, s[i].f
+			return s
+		}
 		v := c.structVar(x.X, en)
 		t.exprType(x)
-		return k(fmt.Sprintf("(%s_%s %s)", v.ty.st.name, x.Sel.Name, v.name))
+		return k(fmt.Sprintf("(%s_%s %s)", v.ty.st.name, v.ty.st.coqField(x.Sel.Name), v.name)) // [stable]
 	case *ast.UnaryExpr:
 		g := t.exprType(x)
 		switch x.Op {
@@ -333,8 +338,8 @@ func (c *fctx) expr(e ast.Expr, en *env, k func(string) string) string {
 	case *ast.BinaryExpr:
 		return c.binary(x, en, k)
 	case *ast.IndexExpr:
-		if t.exprType(x.X).k != kSlice {
-			t.fail(x, "index expression on a non-slice")
+		if g := t.exprType(x.X); g.k != kSlice || g.elem != nil { // [seq] a whole struct element is not a value
+			t.fail(x, "index expression on a non-slice (or a struct element used as a value)")
 		}
 		t.exprType(x)
 		return c.expr(x.X, en, func(a string) string {
@@ -347,8 +352,8 @@ func (c *fctx) expr(e ast.Expr, en *env, k func(string) string) string {
 		if x.Slice3 {
 			t.fail(x, "3-index slice expression")
 		}
-		if t.exprType(x.X).k != kSlice {
-			t.fail(x, "slice expression on a non-slice")
+		if g := t.exprType(x.X); g.k != kSlice || g.elem != nil {
+			t.fail(x, "slice expression on a non-slice (or on a slice of structs)")
 		}
 		return c.expr(x.X, en, func(a string) string {
 			lo := func(k2 func(string) string) string {
@@ -565,7 +570,8 @@ func (c *fctx) call(x *ast.CallExpr, en *env, k func([]string) string) string {
 		if b == "cap" && c.sliceKey(x.Args[0], en) == "" {
 			t.fail(x, "cap of something that is not a variable or a field (capacity is modelled as the length)")
 		}
-		return c.expr(x.Args[0], en, func(a string) string { return k([]string{"(zlen " + a + ")"}) })
+		lf := lenFn(t.exprType(x.Args[0])) // [seq] zlenA for slices of structs
+		return c.expr(x.Args[0], en, func(a string) string { return k([]string{"(" + lf + " " + a + ")"}) })
 	case "min", "max":
 		if g := t.exprType(x); g.k != kInt && g.k != kUint {
 			t.fail(x, "%s on non-integers", b)
@@ -583,14 +589,20 @@ func (c *fctx) call(x *ast.CallExpr, en *env, k func([]string) string) string {
 		}
 		return c.args(x.Args[1:], en, func(vs []string) string {
 			v := c.fresh("v")
+			if g := t.exprType(x); g.elem != nil { // [seq] make([]S, n)
+				if len(vs) != 1 {
+					t.fail(x, "make of a slice of structs with a capacity")
+				}
+				return fmt.Sprintf("do %s <- m_makeA zero_%s %s;;\n%s", v, g.elem.name, vs[0], k([]string{v}))
+			}
 			if len(vs) == 2 {
 				return fmt.Sprintf("do %s <- m_make_cap %s %s;;\n%s", v, vs[0], vs[1], k([]string{v}))
 			}
 			return fmt.Sprintf("do %s <- m_make %s;;\n%s", v, vs[0], k([]string{v}))
 		})
 	case "append":
-		if t.exprType(x).k != kSlice {
-			t.fail(x, "append on a non-slice")
+		if g := t.exprType(x); g.k != kSlice || g.elem != nil {
+			t.fail(x, "append on a non-slice (or on a slice of structs)")
 		}
 		return c.args(x.Args, en, func(vs []string) string {
 			if x.Ellipsis != token.NoPos {
@@ -612,11 +624,17 @@ func (c *fctx) call(x *ast.CallExpr, en *env, k func([]string) string) string {
 	default:
 		t.fail(x, "builtin %s", b)
 	}
+	if s, ok := c.seqCall(x, en, k); ok { // [seq] sync/atomic, runtime.Gosched
+		return s
+	}
 	fn, recv := t.calleeOf(x)
 	if fn == nil {
 		t.fail(x, "call of %s (only functions and methods of the translated package, builtins and conversions)", nodeDesc(ast.Unparen(x.Fun)))
 	}
 	fi := t.funcFor(fn, x)
+	if t.seq.timedTail[fi.goName] { // [seq]
+		t.fail(x, "call of %s, which is translated with a timed tail", fi.goName)
+	}
 	fuel := ""
 	if fi.loops {
 		fuel = " fuel"
@@ -632,6 +650,7 @@ func (c *fctx) call(x *ast.CallExpr, en *env, k func([]string) string) string {
 		} else {
 			rv = c.structVar(recv, en)
 			if fi.writes {
+				c.checkNoLivePlace(en, x, func(k string) bool { return strings.HasPrefix(k, rv.name+".") }, "call of "+fi.goName) // [seq]
 				for key := range en.shared {
 					if strings.HasPrefix(key, rv.name+".") {
 						t.fail(x, "call of %s, which writes its receiver, while %s may share its array with another variable", fi.goName, key)
@@ -692,8 +711,9 @@ func (c *fctx) call(x *ast.CallExpr, en *env, k func([]string) string) string {
 // copyCall: copy(dst, src) / copy(dst[a:b], src) with dst a variable or a field; rebinding dst.
 func (c *fctx) copyCall(x *ast.CallExpr, en *env, k func([]string) string) string {
 	t := c.t
-	if len(x.Args) != 2 || t.exprType(x.Args[0]).k != kSlice || t.exprType(x.Args[1]).k != kSlice {
-		t.fail(x, "copy on non-slices")
+	if len(x.Args) != 2 || t.exprType(x.Args[0]).k != kSlice || t.exprType(x.Args[1]).k != kSlice ||
+		t.exprType(x.Args[0]).elem != nil || t.exprType(x.Args[1]).elem != nil {
+		t.fail(x, "copy on non-slices (or on slices of structs)")
 	}
 	dst := ast.Unparen(x.Args[0])
 	var low, high ast.Expr
@@ -756,8 +776,8 @@ func (c *fctx) store(lhs ast.Expr, val string, en *env, k func() string) string 
 		if v == nil {
 			t.fail(x, "assignment to %s (not a local variable)", x.Name)
 		}
-		if v.ty.k == kStruct {
-			t.fail(x, "assignment of a whole struct to %s", x.Name)
+		if v.ty.k == kStruct || v.ty.k == kPlace {
+			t.fail(x, "assignment of a whole struct / pointer to %s", x.Name)
 		}
 		if v.name == val {
 			return k()
@@ -769,7 +789,7 @@ func (c *fctx) store(lhs ast.Expr, val string, en *env, k func() string) string 
 			t.fail(x, "assignment to selector %s", x.Sel.Name)
 		}
 		v := c.structVar(x.X, en)
-		return fmt.Sprintf("let %s := set_%s_%s %s %s in\n%s", v.name, v.ty.st.name, x.Sel.Name, v.name, val, k())
+		return fmt.Sprintf("let %s := set_%s_%s %s %s in\n%s", v.name, v.ty.st.name, v.ty.st.coqField(x.Sel.Name), v.name, val, k()) // [stable]
 	}
 	t.fail(lhs, "assignment to %s", nodeDesc(lhs))
 	return ""
